@@ -444,12 +444,14 @@ impl Sub for Exhaust {
         if let Some(sg) = single {
             // last(): some remaining hit iff any remains; max_by(score): the best remaining score
             info.comparisons += 1;
-            let remaining: Vec<&(usize, u32)> = expected.iter().filter(|e| !got.contains(e)).collect();
+            let mut got_sorted = got.clone();
+            got_sorted.sort_unstable();
+            let remaining: Vec<&(usize, u32)> = expected.iter().filter(|e| got_sorted.binary_search(e).is_err()).collect();
             let ok = match sg {
                 None => remaining.is_empty(),
                 Some(h) => remaining.contains(&&h) && (case.finish == 5 || remaining.iter().all(|e| f32::from_bits(e.1) <= f32::from_bits(h.1))),
             };
-            let genuine = got.iter().all(|g| expected.contains(g));
+            let genuine = got.iter().all(|g| expected.binary_search(g).is_ok());
             if !ok || !genuine {
                 return Verdict::Fail(Failure::new(
                     format!("{}:{}-after-next", arm_sig(case.arm), if case.finish == 5 { "last" } else { "max_by" }),
@@ -464,8 +466,9 @@ impl Sub for Exhaust {
         expected.sort_unstable();
         if got != expected {
             // describe the first difference
-            let missing: Vec<&(usize, u32)> = expected.iter().filter(|e| !got.contains(e)).take(3).collect();
-            let extra: Vec<&(usize, u32)> = got.iter().filter(|e| !expected.contains(e)).take(3).collect();
+            // both lists are sorted: binary search (the lists can hold a million hits)
+            let missing: Vec<&(usize, u32)> = expected.iter().filter(|e| got.binary_search(e).is_err()).take(3).collect();
+            let extra: Vec<&(usize, u32)> = got.iter().filter(|e| expected.binary_search(e).is_err()).take(3).collect();
             let kind = if !extra.is_empty() && extra.iter().any(|e| e.0 >= n) {
                 "hit-past-last-position".to_string()
             } else if !extra.is_empty() {
